@@ -32,7 +32,7 @@ var documentedRules = []string{
 func isResultPtr(t types.Type) bool {
 	n := core.NamedOf(t)
 	_, isPtr := t.(*types.Pointer)
-	return isPtr && n != nil && n.Obj().Name() == "Result" && n.Obj().Pkg() != nil && n.Obj().Pkg().Name() == "validate"
+	return isPtr && n != nil && core.KnownTypeName(n) == "Result" && n.Obj().Pkg() != nil && n.Obj().Pkg().Name() == "validate"
 }
 
 // cellOf: v is a load of a local variable cell; returns the cell.
@@ -837,12 +837,12 @@ func specScope(p *core.Prog) map[*ssa.Function]bool {
 		if n == nil {
 			return false
 		}
-		if n.Obj().Name() == "SpecValidator" {
+		if core.KnownTypeName(n) == "SpecValidator" {
 			return true
 		}
 		if st, ok := n.Underlying().(*types.Struct); ok {
 			for k := 0; k < st.NumFields(); k++ {
-				if fn := core.NamedOf(st.Field(k).Type()); fn != nil && fn.Obj().Name() == "SpecValidator" {
+				if fn := core.NamedOf(st.Field(k).Type()); fn != nil && core.KnownTypeName(fn) == "SpecValidator" {
 					return true
 				}
 			}
@@ -876,7 +876,7 @@ func specScope(p *core.Prog) map[*ssa.Function]bool {
 		if n == nil {
 			return false
 		}
-		return pi.pooled[n] || isResultPtr(g.Signature.Recv().Type()) || n.Obj().Name() == "SchemaValidator" || n.Obj().Name() == "ParamValidator" || n.Obj().Name() == "HeaderValidator"
+		return pi.pooled[n] || isResultPtr(g.Signature.Recv().Type()) || core.KnownTypeName(n) == "SchemaValidator" || core.KnownTypeName(n) == "ParamValidator" || core.KnownTypeName(n) == "HeaderValidator"
 	}
 	scope := map[*ssa.Function]bool{}
 	var work []*ssa.Function
@@ -965,7 +965,7 @@ func RawAnalyzer(p *core.Prog, r *core.Report) {
 	}
 	fields := map[int]bool{}
 	for k := 0; k < st.NumFields(); k++ {
-		if n := core.NamedOf(st.Field(k).Type()); n != nil && n.Obj().Name() == "Spec" && n.Obj().Pkg() != nil && strings.HasSuffix(n.Obj().Pkg().Path(), "/analysis") {
+		if n := core.NamedOf(st.Field(k).Type()); n != nil && core.KnownTypeName(n) == "Spec" && n.Obj().Pkg() != nil && strings.HasSuffix(n.Obj().Pkg().Path(), "/analysis") {
 			fields[k] = true
 		}
 	}
@@ -1506,7 +1506,7 @@ func ValueOptions(p *core.Prog, r *core.Report) {
 		if top.Signature.Recv() == nil {
 			continue
 		}
-		if n := core.NamedOf(top.Signature.Recv().Type()); n == nil || n.Obj().Name() != "objectValidator" {
+		if n := core.NamedOf(top.Signature.Recv().Type()); n == nil || core.KnownTypeName(n) != "objectValidator" {
 			continue
 		}
 		for _, b := range f.Blocks {
@@ -1578,7 +1578,7 @@ func ValueOptions(p *core.Prog, r *core.Report) {
 		emb, oi := false, -1
 		for k := 0; k < st.NumFields(); k++ {
 			f := st.Field(k)
-			if n := core.NamedOf(f.Type()); n != nil && n.Obj().Name() == "SpecValidator" {
+			if n := core.NamedOf(f.Type()); n != nil && core.KnownTypeName(n) == "SpecValidator" {
 				emb = true
 			}
 			if n := core.NamedOf(f.Type()); n != nil && n.Obj() == optsT.Obj() {
@@ -1657,7 +1657,7 @@ func ValueOptions(p *core.Prog, r *core.Report) {
 					return
 				}
 				nStores++
-				key := core.FuncName(core.EnclosingTop(f)) + ":" + w.t.Obj().Name() + ".options"
+				key := core.FuncName(core.EnclosingTop(f)) + ":" + core.KnownTypeName(w.t) + ".options"
 				// the private copy: an allocation of this function, or the result of a helper of the package whose every
 				// return is such an allocation
 				switchesOff := func(al *ssa.Alloc, before ssa.Instruction) []string {
@@ -1709,16 +1709,16 @@ func ValueOptions(p *core.Prog, r *core.Report) {
 						}
 					}
 					if !okH || nRet == 0 {
-						r.Bad(rule, key, p.Pos(st.Pos()), fmt.Sprintf("the %s is given %s as its options: not a private options value with the schema-shape switches (%s) turned off, so defaults/examples are judged with rules meant for the document's own schemas", w.t.Obj().Name(), describe(st.Val), strings.Join(swNames, ", ")))
+						r.Bad(rule, key, p.Pos(st.Pos()), fmt.Sprintf("the %s is given %s as its options: not a private options value with the schema-shape switches (%s) turned off, so defaults/examples are judged with rules meant for the document's own schemas", core.KnownTypeName(w.t), describe(st.Val), strings.Join(swNames, ", ")))
 						return
 					}
 				default:
-					r.Bad(rule, key, p.Pos(st.Pos()), fmt.Sprintf("the %s is given %s as its options: not a private options value with the schema-shape switches (%s) turned off, so defaults/examples are judged with rules meant for the document's own schemas", w.t.Obj().Name(), describe(st.Val), strings.Join(swNames, ", ")))
+					r.Bad(rule, key, p.Pos(st.Pos()), fmt.Sprintf("the %s is given %s as its options: not a private options value with the schema-shape switches (%s) turned off, so defaults/examples are judged with rules meant for the document's own schemas", core.KnownTypeName(w.t), describe(st.Val), strings.Join(swNames, ", ")))
 					return
 				}
 				sort.Strings(missing)
 				if len(missing) > 0 {
-					r.Bad(rule, key, p.Pos(st.Pos()), "the options given to the "+w.t.Obj().Name()+" leave "+strings.Join(missing, ", ")+" on: a default/example value containing an `items` or `type` member is judged by the swagger rules for schemas and reported although its schema accepts it")
+					r.Bad(rule, key, p.Pos(st.Pos()), "the options given to the "+core.KnownTypeName(w.t)+" leave "+strings.Join(missing, ", ")+" on: a default/example value containing an `items` or `type` member is judged by the swagger rules for schemas and reported although its schema accepts it")
 				} else {
 					r.OK(rule, key, p.Pos(st.Pos()), "private options value with "+strings.Join(swNames, ", ")+" stored false before it is handed to the walker")
 				}
